@@ -872,7 +872,14 @@ def roundtrips(job, p):
             out["results"][c["id"]] = {"stage": "structure", "exc": exc_info(e)}
             continue
         try:
-            back = conv.unstructure_to_dict(inst) if dataclasses.is_dataclass(inst) else conv.converter.unstructure(inst)
+            if dataclasses.is_dataclass(inst):
+                back = conv.unstructure_to_dict(inst)
+            else:
+                # lists / aliases: use what generated code uses for such values (DataclassSerializer.serialize walks the
+                # list and unstructures each model through unstructure_to_dict); converter.unstructure(list) is not the
+                # documented entry point and skips the lazy hook registration
+                utils_mod = importlib.import_module(conv.__name__.rsplit(".", 1)[0] + ".utils")
+                back = utils_mod.DataclassSerializer.serialize(inst)
             json.dumps(back)
         except BaseException as e:  # noqa
             out["results"][c["id"]] = {"stage": "unstructure", "exc": exc_info(e), "pytype": type(inst).__name__}
